@@ -30,11 +30,12 @@ PROPS = {
         assumptions=["as C01"]),
     "C05": dict(
         lean_core=["Props.GenTie.Params", "Props.C05"],
-        lean_code=["Props.GenTie.Target", "Props.C05Code", "Props.GenTie.SummaryRule", "Props.GenTie.HeaderRule"],
-        gen_funcs=["calculate_new_target", "select_block_height", "summary_in_state_ok", "header_by_itself_ok"], harness="c05",
+        lean_code=["Props.GenTie.Target", "Props.C05Code", "Props.GenTie.SummaryRule", "Props.GenTie.HeaderRule", "Props.GenTie.BlockRule"],
+        gen_funcs=["calculate_new_target", "select_block_height", "summary_in_state_ok", "header_by_itself_ok", "block_in_state_ok"], harness="c05",
         code_deps={"Props.GenTie.Target": ["calculate_new_target", "select_block_height"],
                    "Props.C05Code": ["calculate_new_target", "select_block_height"],
-                   "Props.GenTie.SummaryRule": ["summary_in_state_ok"], "Props.GenTie.HeaderRule": ["header_by_itself_ok"]},
+                   "Props.GenTie.SummaryRule": ["summary_in_state_ok"], "Props.GenTie.HeaderRule": ["header_by_itself_ok"],
+                   "Props.GenTie.BlockRule": ["block_in_state_ok"]},
         assumptions=["as C01", "elapsed time passed to calculate_new_target is non-negative (timestamps increase along validated chains)"]),
     "C03": dict(
         lean_core=["Props.C03", "Props.C03Balance"], lean_code=[], gen_funcs=[], harness="c03",
@@ -47,7 +48,7 @@ PROPS = {
         lean_core=["Props.C17"], lean_code=[], gen_funcs=[], harness="c17",
         assumptions=["node hash has 32-byte output (true of SHA-256); no leaf/inner domain separation — stated as the LeafIsInner disjunct"]),
     "C18": dict(
-        lean_core=["Props.C18"], lean_code=[], gen_funcs=[], harness="c18",
+        lean_core=["Props.GenTie.Params", "Props.C18"], lean_code=["Props.GenTie.BlockRule"], gen_funcs=["block_in_state_ok"], harness="c18",
         assumptions=["recorded blocks of the real network: conformance test, not a theorem",
                      "the first sentence of the property is read as the verdict of validate_block_in_coinstate"]),
     "C06": dict(
